@@ -32,4 +32,13 @@ def skelCatchUpExpected : List String :=
 
 theorem skelCatchUp_expected : skelCatchUp = skelCatchUpExpected := rfl
 
+/-- the structure the model of `PredictorUpdate` was written against -/
+def skelPredictorUpdateExpected : List String :=
+  ["0:if", "1:if", "2:assign=", "0:elseif", "1:if", "2:assign/=", "1:elseif", "2:assign*=", "1:else",
+   "2:assign/=", "2:assign=", "1:if", "2:assign=", "1:elseif", "2:assign=", "1:if", "2:assign=", "2:assign+=",
+   "2:assign=", "1:else", "2:assign-=", "2:assign=", "1:if", "2:assign=", "1:elseif", "2:assign=",
+   "0:assign:=", "0:if", "1:assign=", "1:assign=", "0:return1"]
+
+theorem skelPredictorUpdate_expected : skelPredictorUpdate = skelPredictorUpdateExpected := rfl
+
 end F3.SkelTie.SkelPoll
